@@ -290,6 +290,32 @@ def rule_r2(prog, res) -> None:
                     )
     if n_sites == 0:
         raise AnalysisError("C09.R2: no Process.join site found in a writer-process class")
+    # … and the process whose status is tested is the one that writes: it is created with a target, and the target
+    # takes work off the queue (a Process without target starts, does nothing and exits with status 0 — the catalog is
+    # "written" without a single record, or the producers block forever on a full queue)
+    S = summaries(prog)
+    n_new = 0
+    for ci in _writer_process_classes(prog):
+        for m in ci.methods.values():
+            for c in calls_in(m):
+                if not any(e.kind == "ipc" and e.op == "process.new" for e in classify_call(prog, m, c)):
+                    continue
+                n_new += 1
+                res.touch(m)
+                tgt = kwarg(c, "target") or (c.args[1] if len(c.args) > 1 else None)
+                if tgt is None:
+                    res.violation("C09.R2", m, c, f"{ci.name} creates its process without a target: the process starts, does nothing and exits with status 0 — nothing is written and the exit-status test passes", key_extra="process-without-target")
+                    continue
+                tm = ci.methods.get(tgt.attr) if isinstance(tgt, ast.Attribute) and isinstance(tgt.value, ast.Name) and tgt.value.id == (m.param_names() or [""])[0] else None
+                tfs = [tm] if tm is not None else [t for t in prog.funcs if isinstance(tgt, ast.Name) and t.name == tgt.id and t.module is m.module]
+                if not tfs:
+                    raise AnalysisError(f"C09.R2: target `{unparse(tgt)[:40]}` of the writer process of {ci.name} not resolved")
+                if any(any(e.kind == "ipc" and e.op == "queue.get" for e, _ in S.may(t)) for t in tfs):
+                    res.ok("C09.R2", res.site(m, "process target"), f"the process runs `{unparse(tgt)}`, which takes work off the queue")
+                else:
+                    res.violation("C09.R2", m, c, f"the writer process of {ci.name} runs `{unparse(tgt)}`, which never takes anything off the queue: nothing is written, the producers block on the queue", key_extra="process-target-not-consumer")
+    if n_new == 0:
+        raise AnalysisError("C09.R2: creation of the writer process not found in a writer-process class")
 
 
 # ----------------------------------------------------------------------------- R3
